@@ -9,6 +9,7 @@ import (
 	"regexp"
 	"sort"
 	"strings"
+	"syscall"
 )
 
 // C18 — every matching log path is tailed, once.
@@ -133,6 +134,17 @@ func c18Run(r *runCtx, id string, f []string) {
 			}
 		case "md":
 			_ = os.Mkdir(filepath.Join(root, p[1]), 0o755)
+		case "sl":
+			// a name that exists, is no directory, is not ignored, and cannot be tailed
+			if _, err := os.Lstat(filepath.Join(root, p[1])); err != nil {
+				_ = os.Symlink("/dev/null", filepath.Join(root, p[1]))
+			}
+		case "so":
+			if _, err := os.Lstat(filepath.Join(root, p[1])); err != nil {
+				if err := syscall.Mknod(filepath.Join(root, p[1]), syscall.S_IFSOCK|0o644, 0); err != nil {
+					_ = os.Symlink("/dev/null", filepath.Join(root, p[1]))
+				}
+			}
 		case "rm":
 			_ = os.Remove(filepath.Join(root, p[1]))
 			delete(pending, p[1])
@@ -254,6 +266,18 @@ func init() {
 						"rm:d1/a.log", "md:d1/a.log", "p", "p"})
 				}
 			}
+			// a match no stream can be opened on (a device behind a symlink, a socket file) sorts before,
+			// between and after the log files: it is skipped at every poll and the files are tailed
+			for _, ps := range patSets {
+				for _, ig := range []string{"-", "s:.gz"} {
+					for _, mk := range []string{"sl", "so"} {
+						emit(ps, ig, []string{mk + ":d1/0.log", "cf:d1/a.log", "cf:d1/b.log", mk + ":d1/ab.log", "cf:d2/a.log", "p",
+							"ap:d1/a.log:" + hx("one"), "ap:d1/b.log:" + hx("two"), "ap:d2/a.log:" + hx("three"), "p",
+							"cf:d1/c.log", "p", "ap:d1/c.log:" + hx("four"), "rm:d1/0.log", "cf:d1/0.log", "p", "ap:d1/0.log:" + hx("five"),
+							"mv:d1/ab.log:d1/zz.log", "p", "p"})
+					}
+				}
+			}
 			n := 120
 			if g.thorough() {
 				n = 2500
@@ -265,6 +289,10 @@ func init() {
 				var ops []string
 				for j := 0; j < ln; j++ {
 					p := paths[g.r.intn(5)]
+					if g.r.chance(1, 12) {
+						ops = append(ops, g.r.pick([]string{"sl:", "so:"})+g.r.pick([]string{"d1/0.log", "d1/a.log", "d1/ab.log", "d2/0.log", p}))
+						continue
+					}
 					switch g.r.intn(9) {
 					case 0, 1, 2:
 						ops = append(ops, "cf:"+p)
